@@ -91,6 +91,17 @@ func (e *Engine) protoEnumString(fn *ssa.Function) intrinsic {
 }
 
 func (in *Interp) fresh(prefix string, w int) *Term {
+	if in.concrete != nil {
+		// concrete re-execution of a recorded counterexample: inputs are the model's values
+		var v uint64
+		if in.concretePos < len(in.concrete) {
+			v = in.concrete[in.concretePos]
+		}
+		in.concretePos++
+		t := in.ts.Const(w, v)
+		in.inputs = append(in.inputs, t)
+		return t
+	}
 	in.nvar++
 	t := in.ts.Var(fmt.Sprintf("%s_%d", prefix, in.nvar), w)
 	in.inputs = append(in.inputs, t)
@@ -100,6 +111,15 @@ func (in *Interp) fresh(prefix string, w int) *Term {
 // freshHidden creates a symbolic value that is not a harness input (environment nondeterminism
 // such as random numbers); it does not appear in replay files.
 func (in *Interp) freshHidden(prefix string, w int) *Term {
+	if in.concrete != nil {
+		var v uint64
+		if len(in.hidden) < len(in.concreteHidden) {
+			v = in.concreteHidden[len(in.hidden)]
+		}
+		t := in.ts.Const(w, v)
+		in.hidden = append(in.hidden, t)
+		return t
+	}
 	in.nvar++
 	t := in.ts.Var(fmt.Sprintf("%s_%d", prefix, in.nvar), w)
 	in.hidden = append(in.hidden, t)
@@ -148,6 +168,9 @@ func init() {
 		c := in.choose("ch", n)
 		t := in.ts.Const(64, uint64(c))
 		in.inputs = append(in.inputs, t)
+		if in.concrete != nil {
+			in.concretePos++
+		}
 		return t
 	})
 	reg(ndPkg+".Concrete", func(in *Interp, fr *frame, a []Value) Value {
